@@ -21,6 +21,7 @@ import (
 	"istio.io/istio/pkg/config"
 	"istio.io/istio/pkg/config/schema/gvk"
 	"istio.io/istio/pkg/config/schema/kind"
+	"istio.io/istio/pkg/network"
 	"istio.io/istio/pkg/simhook"
 	"istio.io/istio/pkg/util/sets"
 	"verif/sim/engine"
@@ -34,6 +35,9 @@ import (
 
 func init() { register("c13b", "C13", runC13b) }
 
+// the one east-west gateway of network net2 in the multi-network stratum
+const c13GatewayAddr = "2.2.2.2"
+
 type mEp struct {
 	addr     string
 	version  string
@@ -43,6 +47,7 @@ type mEp struct {
 	sa       string
 	cluster  string // cluster of the reporting registry
 	local    bool   // discoverable only from proxies of the same cluster (what MCS assigns to cluster-local endpoints)
+	network  string // network of the reporting registry ("" in a single-network mesh)
 }
 
 func (e mEp) String() string {
@@ -52,6 +57,9 @@ func (e mEp) String() string {
 	}
 	if e.local {
 		h += "/only-" + e.cluster
+	}
+	if e.network != "" {
+		h += "/" + e.network
 	}
 	return fmt.Sprintf("%s/%s/%s/w%d/%s", e.addr, e.version, e.locality, e.weight, h)
 }
@@ -76,6 +84,12 @@ func (e mEp) istio(ns string) *model.IstioEndpoint {
 	if e.local {
 		ep.Locality.ClusterID = cluster.ID(e.cluster)
 		ep.DiscoverabilityPolicy = model.DiscoverableFromSameCluster
+	}
+	if e.network != "" {
+		// a multi-network mesh: the registry stamps its network; workloads of such a mesh speak Istio mutual TLS
+		// (cross-network traffic is routed by SNI at the east-west gateway)
+		ep.Network = network.ID(e.network)
+		ep.TLSMode = model.IstioMutualTLSModeLabel
 	}
 	return ep
 }
@@ -105,20 +119,44 @@ func runC13b(t *testing.T, r *engine.Run) {
 				{Name: "v1", Labels: map[string]string{"version": "v1"}}, {Name: "v2", Labels: map[string]string{"version": "v2"}}}},
 		})
 	}
-	inst := newWisInstance(t, "main", wisOpts{debounceAfter: db.after, debounceMax: db.max, configs: cfgs})
+	// Multi-network stratum: registry 1 reports from network net2, which the proxies (all on net1) reach only through
+	// one east-west gateway; every other registry is on net1. Split-horizon EDS then replaces the net2 members of each
+	// locality by the gateway, weighted by what stands behind it.
+	multiNet := tp.Bool(1, 3, "multiNetwork")
+	var gws []model.NetworkGateway
+	if multiNet {
+		gws = []model.NetworkGateway{{Network: "net2", Cluster: "c1", Addr: c13GatewayAddr, Port: 15443}}
+	}
+	netOf := func(reg int) string {
+		if !multiNet {
+			return ""
+		}
+		if reg == 1 {
+			return "net2"
+		}
+		return "net1"
+	}
+	inst := newWisInstance(t, "main", wisOpts{debounceAfter: db.after, debounceMax: db.max, configs: cfgs, gateways: gws})
 	defer func() {
 		inst.Close()
 		synctest.Wait()
 	}()
 	w := newWis(t, r, inst)
 	defer w.cancel()
-	c := clientMenu[0].build(false)
+	spec := clientMenu[0]
+	if multiNet {
+		spec.meta = func(m *model.NodeMetadata) { m.Network = "net1" }
+	}
+	c := spec.build(false)
 	w.addClient(c)
 	w.connect(c, inst, false)
 	// a second proxy, identical but for its cluster: cluster-local endpoints of registry 0 are visible to it only
 	c0 := clientMenu[0].build(false)
 	c0.name += "-c0"
 	c0md := &model.NodeMetadata{Namespace: "a", Labels: map[string]string{"app": "foo"}, ClusterID: "c0", IstioVersion: "1.30.0"}
+	if multiNet {
+		c0md.Network = "net1"
+	}
 	c0.node = &core.Node{Id: "sidecar~10.3.0.9~foo-c0.a~a.svc.cluster.local", Metadata: c0md.ToStruct(), Locality: c.node.Locality}
 	twoClusters := tp.Bool(1, 2, "twoClusters")
 	if twoClusters {
@@ -163,7 +201,7 @@ func runC13b(t *testing.T, r *engine.Run) {
 				if tp.Bool(1, 3, "replace") && len(eps) > 0 {
 					// a known endpoint is replaced by a new, not yet healthy one (rolling update)
 					epSeq++
-					eps[len(eps)-1] = mEp{addr: fmt.Sprintf("10.%d.0.%d", reg+1, epSeq), version: "v1", locality: localities[0], weight: 1, healthy: false}
+					eps[len(eps)-1] = mEp{addr: fmt.Sprintf("10.%d.0.%d", reg+1, epSeq), version: "v1", locality: localities[0], weight: 1, healthy: false, network: netOf(reg)}
 				}
 			} else {
 				for j := 0; j < n; j++ {
@@ -177,6 +215,7 @@ func runC13b(t *testing.T, r *engine.Run) {
 						sa:       []string{"", "sa1"}[tp.Choose(2, "sa")],
 						cluster:  fmt.Sprintf("c%d", reg),
 						local:    twoClusters && tp.Bool(1, 3, "clusterLocal"),
+						network:  netOf(reg),
 					})
 				}
 			}
@@ -228,7 +267,7 @@ func runC13b(t *testing.T, r *engine.Run) {
 		}()
 	}
 	synctest.Wait()
-	r.Logf("registries=%d subsets=%v ops=%d", nreg, withSubsets, nops)
+	r.Logf("registries=%d subsets=%v ops=%d multiNetwork=%v", nreg, withSubsets, nops, multiNet)
 	for steps := 0; steps < 400 && !r.Failed(); steps++ {
 		r.Steps++
 		parked := w.parkedHooks()
@@ -319,6 +358,7 @@ func runC13b(t *testing.T, r *engine.Run) {
 				r.Fail("c13.bad_cla", cn, "cannot parse %s", cn)
 				return
 			}
+			// held: one entry per (locality, address); an address may legitimately appear in several localities (the gateway)
 			got := map[string]string{}
 			for _, l := range cla.Endpoints {
 				loc := l.Locality.GetRegion() + "/" + l.Locality.GetZone()
@@ -327,19 +367,38 @@ func runC13b(t *testing.T, r *engine.Run) {
 					a := le.GetEndpoint().GetAddress().GetSocketAddress()
 					wgt := le.GetLoadBalancingWeight().GetValue()
 					sum += wgt
-					got[a.GetAddress()] = fmt.Sprintf("%s:%d@%s/w%d", a.GetAddress(), a.GetPortValue(), loc, wgt)
+					k := loc + "|" + a.GetAddress()
+					if _, dup := got[k]; dup {
+						r.Fail("c13.membership", shortSubset(subset), "cluster %s: proxy %s holds %s twice in locality %s", cn, cl.name, a.GetAddress(), loc)
+						return
+					}
+					got[k] = fmt.Sprintf("%s:%d@%s/w%d", a.GetAddress(), a.GetPortValue(), loc, wgt)
 				}
 				if lw := l.GetLoadBalancingWeight().GetValue(); lw != sum {
 					r.Fail("c13.locality_weight", cn, "cluster %s locality %s: locality weight %d != sum of endpoint weights %d", cn, loc, lw, sum)
 					return
 				}
 			}
+			// wanted: members on the proxy's network as they are; the members of a locality on the other network are
+			// reached through the gateway of that network, which carries their total weight in that locality
 			wantS := map[string]string{}
+			behindGw := map[string]uint32{}
 			for a, e := range want {
-				wantS[a] = fmt.Sprintf("%s:%d@%s/w%d", a, 8080, e.locality, e.weight)
 				if e.local {
 					r.Probe("cluster_local_endpoint_compared")
 				}
+				if e.network != "" && e.network != "net1" {
+					behindGw[e.locality] += e.weight
+					r.Probe("remote_network_endpoint_compared")
+					continue
+				}
+				wantS[e.locality+"|"+a] = fmt.Sprintf("%s:%d@%s/w%d", a, 8080, e.locality, e.weight)
+			}
+			for loc, wgt := range behindGw {
+				wantS[loc+"|"+c13GatewayAddr] = fmt.Sprintf("%s:%d@%s/w%d", c13GatewayAddr, 15443, loc, wgt)
+			}
+			if len(behindGw) > 1 {
+				r.Probe("gateway_in_several_localities")
 			}
 			r.Probe("clusters_compared")
 			if len(want) > 0 {
